@@ -1,17 +1,26 @@
 #!/bin/bash
 # Re-applies every seeded change and every mutation to /repo (one at a time), runs the quick tier of its
 # property's check and records whether it is caught. Output: /verif/detection_matrix.tsv
+# optional argument: a property id (e.g. C12) -- only its changes are re-run and their rows replaced
+ONLY=${1:-}
 OUT=/verif/detection_matrix.tsv
-echo -e "change\tproperty\tresult\tviolation_signatures" > $OUT
+if [ -n "$ONLY" ]; then grep -v -P "\t$ONLY\t" $OUT > $OUT.tmp; mv $OUT.tmp $OUT; else echo -e "change\tproperty\tresult\tviolation_signatures" > $OUT; fi
 for f in /verif/seeded/*/patch.diff /verif/mutations/*.patch; do
   case "$f" in
     */seeded/*) name=$(basename $(dirname $f));;
     *) name=$(basename $f .patch);;
   esac
   P=${name:0:3}
+  if [ -n "$ONLY" ] && [ "$P" != "$ONLY" ]; then continue; fi
   cd /repo
+  export APPLY_OPTS=""
   if ! git apply --check "$f" 2>/dev/null; then
-    echo -e "$name\t$P\tdoes-not-apply-to-the-current-tree\t" >> $OUT; continue
+    # a later fix moved the context lines: retry with one line of context
+    if git apply -C1 --check "$f" 2>/dev/null; then
+      export APPLY_OPTS="-C1"
+    else
+      echo -e "$name\t$P\tdoes-not-apply-to-the-current-tree\t" >> $OUT; continue
+    fi
   fi
   n=${P:1:2}
   MC_FEATURES="hooks,single,p$n" /verif/tools/try_mutation.sh "$f" $P quick 40 > /tmp/regress.out 2>&1
